@@ -99,7 +99,9 @@ namespace H
     out.push_back(sym_f64("guard"));                       // one slot past the request: must never change
     const std::vector<double> old = out;
     env = Env();
+    sym_freeze(); sym_allow(&env); sym_allow(out.data());
     f->F::properties(pos, nc, depth, props, g, entry, out);
+    sym_assert(sym_writes() == 0, "the feature query stores only to fresh memory and the caller's output vector");
 
     // ---- oracle, from the statement: inside <=> polygon(surface position) and min <= depth <= max (global and local, closed)
     const bool in_global = depth <= f->max_depth && depth >= f->min_depth;
